@@ -364,7 +364,7 @@ func main() {
 	run := vk.Start("C13", "model_checking")
 	scs := scenarios()
 	bound, pbound := 2, 1
-	maxExec := int64(300000)
+	maxExec := int64(100000)
 	if run.Thorough() {
 		bound, pbound = 3, 2
 		maxExec = 6000000
@@ -432,7 +432,7 @@ func main() {
 	// scheduler whose hand-offs are invisible to the race detector; every explored schedule is
 	// judged with exactly the program's own happens-before relation ----
 	if bin := os.Getenv("VERIF_RACE_BIN"); bin != "" {
-		rbound, rmax := 2, int64(30000)
+		rbound, rmax := 2, int64(12000)
 		if run.Thorough() {
 			rbound, rmax = 3, 600000
 		}
